@@ -261,6 +261,18 @@ class Ctx:
         return read_ndjson(tp), out
 
     # ------------------------------------------------------------------ JUDGE
+    def judge_as_drift(self, label, *a, **kw):
+        """Judge traces of a part of the spec that goes beyond the property statement: a rejection
+        is reported as DRIFT (exit code unaffected), never as a violation of the property."""
+        nv, nk = len(self.violations), len(self.known_seen)
+        n = self.judge(*a, **kw)
+        for v in self.violations[nv:]:
+            self.drift.append("%s: %s (replay %s)" % (label, v["what"][:200], v["replay"]))
+        self.extra[label + "_rejections"] = len(self.violations) - nv
+        del self.violations[nv:]
+        del self.known_seen[nk:]
+        return n
+
     def judge(self, specdirs, module, cfg, events, scenario_of=None, env=None, timeout=900,
               max_rejects=25, known=None, heap="8g", dfs=True):
         """Validate recorded traces against a contract trace spec.
